@@ -177,6 +177,13 @@ static void closeSocket(TcpAsyncCtx *tcpCtx, unsigned int lineNr) {
 		tcpCtx->socketReady = false;
 		/* Clear input buffer. */
 		tcpCtx->inLen = 0;
+		/* A partially sent request has to be sent again from its beginning on the next connection. */
+		if (KSI_AsyncHandleList_length(tcpCtx->reqQueue) > 0) {
+			KSI_AsyncHandle *head = NULL;
+			if (KSI_AsyncHandleList_elementAt(tcpCtx->reqQueue, 0, &head) == KSI_OK && head != NULL) {
+				head->sentCount = 0;
+			}
+		}
 	}
 }
 
